@@ -44,6 +44,46 @@ impl<'a> FillSpecs<'a> {
     }
 }
 
+// ------------------------------------------------------------------ stubs for the str `format` builtin
+pub struct Rt;
+pub struct ManagedXError;
+pub struct RuntimeViolation;
+pub struct Tailed;
+pub type RuntimeResult<T> = Result<T, RuntimeViolation>;
+pub struct A0;
+impl From<A0> for Tailed {
+    #[verifier::external_body]
+    fn from(a: A0) -> Tailed { unimplemented!() }
+}
+pub struct FencedString;
+impl FencedString {
+    #[verifier::external_body]
+    pub fn len(&self) -> (r: usize) { unimplemented!() }
+}
+impl Rt {
+    #[verifier::external_body]
+    pub fn can_allocate_by<F: Fn() -> Option<usize>>(&self, f: F) -> (r: RuntimeResult<()>)
+        requires f.requires(()),
+    { unimplemented!() }
+}
+impl ManagedXError {
+    #[verifier::external_body]
+    pub fn new(error: &str, runtime: Rt) -> (r: RuntimeResult<std::rc::Rc<ManagedXError>>) { unimplemented!() }
+}
+#[verifier::external_body]
+pub fn xerr(e: std::rc::Rc<ManagedXError>) -> (r: RuntimeResult<Tailed>) { unimplemented!() }
+#[verifier::external_body]
+pub fn max(a: usize, b: usize) -> (r: usize) { unimplemented!() }
+#[verifier::external_body]
+pub fn xerr_unreachable_tail() -> (r: RuntimeResult<Tailed>) { unimplemented!() }
+/// R-assert target
+pub fn vx_assert(c: bool) requires c {}
+impl<'a> XFormatting<'a> {
+    /// only used for the pre-flight size estimate
+    #[verifier::external_body]
+    pub fn min_width(&self) -> (r: usize) { unimplemented!() }
+}
+
 // @@EXTRACTED@@
 
 } // verus!
